@@ -29,7 +29,11 @@ HEADER_VALUES = [b'plain', b'a\rb', b'a\nb', b'a\r\n b', b'x\x00y', b'caf\xc3\xa
 HEADER_NAMES = gen.HEADER_NAMES + [b'Sender', b'Reply-To', b'Bcc', b'Content-ID', b'Content-Description', b'Content-Language', b'Content-Location', b'Content-MD5', b'References']
 FETCH_ATTRS = [b'ENVELOPE', b'BODYSTRUCTURE', b'BODY', b'FLAGS', b'INTERNALDATE', b'RFC822.SIZE', b'UID', b'BODY.PEEK[HEADER.FIELDS (SUBJECT FROM TO DATE)]', b'BODY.PEEK[HEADER.FIELDS.NOT (X-A)]',
                b'BODY.PEEK[HEADER]', b'BODY.PEEK[TEXT]', b'BODY.PEEK[]<0.10>', b'BODY.PEEK[1]', b'BODY.PEEK[1.MIME]', b'BODY.PEEK[2.1]', b'BODY.PEEK[1.HEADER]', b'BINARY.PEEK[1]', b'BINARY.SIZE[1]',
-               b'BINARY.PEEK[]', b'RFC822.HEADER', b'RFC822.TEXT', b'RFC822', b'EMAILID', b'THREADID', b'BODY[]']
+               b'BINARY.PEEK[]', b'RFC822.HEADER', b'RFC822.TEXT', b'RFC822', b'EMAILID', b'THREADID', b'BODY[]',
+               # header names are astrings: the section specifier is echoed back, so quoted / literal names with special bytes matter
+               b'BODY.PEEK[HEADER.FIELDS ("X)Y" "Subject")]', b'BODY.PEEK[HEADER.FIELDS ("q\\"r" From)]', b'BODY.PEEK[HEADER.FIELDS.NOT ("a(b")]',
+               b'BODY.PEEK[HEADER.FIELDS ({6+}\r\nab\r\ncd To)]', b'BODY.PEEK[1.HEADER.FIELDS ("a b" "c]d" "{3}")]', b'BODY.PEEK[HEADER.FIELDS ("\\\\" "%" "*")]<0.5>',
+               b'BODY.PEEK[HEADER.FIELDS ("caf\xc3\xa9")]']
 KEYWORDS = [b'kw', b'$Forwarded', b'a.b', b'x-y', b'NonJunk', b'\\Custom', b'a]b', b'x&y', b'caf\xc3\xa9', b'k~', b'1', b'NIL']
 TAGS = [b'a', b'A1', b'a.b', b'a-b', b'x]y', b'a&', b'~t', b'1', b'a{', b'a"b', b'a(b', b'a%b', b'a*b', b'a\\b', b'\xc3\xa9', b'a' * 70]
 
